@@ -22,8 +22,15 @@ def parseCmd : List String → Option Cmd
   | ["drop", m] => if validName m then some (.op (.drop m)) else none
   | ["reopen"] => some (.op .reopen)
   | ["crash"] => some (.op .crash)
-  | ["crashtorn", j] => (parseNatCanon j).map fun j => .op (.crashTorn j)
-  | ["crashtornend", k] => (parseNatCanon k).map fun k => .op (.crashTornEnd k)
+  | "wtorn" :: j :: toks =>
+    if toks.isEmpty then none else
+    match parseIntCanon j, toks.mapM parsePoint with
+    | some j, some b => some (.op (.writeTorn j b))
+    | _, _ => none
+  | ["droptorn", j, m] =>
+    match parseIntCanon j with
+    | some j => if validName m then some (.op (.dropTorn j m)) else none
+    | none => none
   | ["crashclose", p] => (parsePointName p).map fun p => .op (.crashInClose p)
   | ["f"] => some (.op .look)
   | ["r"] => some (.op .look)
@@ -39,6 +46,8 @@ def stepStr : Step10 → String
   | .drop _ ok after => (if ok then "ok " else "err:other ") ++ seenStr after
   | .restart kind opened after =>
     if opened then "ok " ++ Spec.C10.restartName kind ++ " " ++ seenStr after else "err:open " ++ Spec.C10.restartName kind ++ " - -"
+  | .tornWrite _ opened after => if opened then "ok torn " ++ seenStr after else "err:open torn - -"
+  | .tornDrop _ opened after => if opened then "ok torn " ++ seenStr after else "err:open torn - -"
   | .look after => seenStr after
 
 def step (st : PState) (toks : List String) : PState × String :=
@@ -47,10 +56,15 @@ def step (st : PState) (toks : List String) : PState × String :=
   | some .logsize =>
     (st, match st.log with
          | none => "-"
-         | some recs => toString (logLen recs + st.torn))
+         | some recs => toString (logLen recs))
   | some (.op o) =>
     let r := step10 st o
-    (r.1, stepStr r.2)
+    -- a torn operation that appends nothing runs to completion: marked `nocrash`
+    let pre := match o, r.2 with
+      | .writeTorn _ _, .write _ _ _ => "nocrash "
+      | .dropTorn _ _, .drop _ _ _ => "nocrash "
+      | _, _ => ""
+    (r.1, pre ++ stepStr r.2)
 
 def parseSeen (sch ents : String) : Option Seen :=
   match parseSchema sch with
@@ -60,7 +74,22 @@ def parseSeen (sch ents : String) : Option Seen :=
     else (parseStore ents).map fun d => { sch := s, store := some d }
 
 def parseKind : String → Restart
-  | "clean" => .clean | "kill" => .kill | "torn" => .torn | p => .inSnapshot p
+  | "clean" => .clean | "kill" => .kill | p => .inSnapshot p
+
+def observeWrite (b : List Point) (ws : List String) : Option (Option Step10) :=
+  match ws.reverse with
+  | ents :: sch :: rres =>
+    match parseRes rres.reverse, parseSeen sch ents with
+    | some res, some a => some (some (.write b res a))
+    | _, _ => none
+  | [e] => (parseRes [e]).map fun r => some (.write b r { sch := [], store := none })
+  | _ => none
+
+def observeDrop (m : String) (ws : List String) : Option (Option Step10) :=
+  match ws with
+  | [r, sch, ents] => (parseSeen sch ents).map fun a => some (.drop m (r == "ok") a)
+  | [_] => some (some (.drop m false { sch := [], store := none }))
+  | _ => none
 
 /-- op tokens + the implementation's answer → the observation the statement is about;
     `none` = unreadable, `some none` = nothing to judge -/
@@ -69,18 +98,21 @@ def observe (toks : List String) (ans : String) : Option (Option Step10) :=
   match parseCmd toks with
   | none => if ans == "bad-op" then some none else none
   | some .logsize => some none
-  | some (.op (.write b)) =>
-    match ws.reverse with
-    | ents :: sch :: rres =>
-      match parseRes rres.reverse, parseSeen sch ents with
-      | some res, some a => some (some (.write b res a))
-      | _, _ => none
-    | [e] => (parseRes [e]).map fun r => some (.write b r { sch := [], store := none })
-    | _ => none
-  | some (.op (.drop m)) =>
+  | some (.op (.write b)) => observeWrite b ws
+  | some (.op (.drop m)) => observeDrop m ws
+  | some (.op (.writeTorn _ b)) =>
     match ws with
-    | [r, sch, ents] => (parseSeen sch ents).map fun a => some (.drop m (r == "ok") a)
-    | [_] => some (some (.drop m false { sch := [], store := none }))
+    | "nocrash" :: rest => observeWrite b rest
+    | ["ok", "torn", sch, ents] => (parseSeen sch ents).map fun a => some (.tornWrite b true a)
+    | "err:open" :: _ => some (some (.tornWrite b false { sch := [], store := none }))
+    | [_] => some (some (.tornWrite b false { sch := [], store := none }))
+    | _ => none
+  | some (.op (.dropTorn _ m)) =>
+    match ws with
+    | "nocrash" :: rest => observeDrop m rest
+    | ["ok", "torn", sch, ents] => (parseSeen sch ents).map fun a => some (.tornDrop m true a)
+    | "err:open" :: _ => some (some (.tornDrop m false { sch := [], store := none }))
+    | [_] => some (some (.tornDrop m false { sch := [], store := none }))
     | _ => none
   | some (.op .look) =>
     match ws with
@@ -100,11 +132,13 @@ def stepTags (M : Spec.C10.Mem) : Step10 → List String
     (if b.any (Spec.C10.conflictsWith M.cur.sch) then ["conflict-write"] else []) ++
     (match res with | .partialWrite _ _ => ["partial"] | .ok => [] | .hardError _ => ["write-error"])
   | .drop _ _ _ => ["drop"]
-  | .restart k _ a =>
+  | .restart k _ _ =>
     ["restart:" ++ Spec.C10.restartName k] ++
-    (if !M.dropped.isEmpty then ["restart-after-drop"] else []) ++
-    (if k == .torn && Spec.C10.sameSchema a.sch M.prev.sch && !Spec.C10.sameSchema a.sch M.cur.sch then ["torn:before"] else []) ++
-    (if k == .torn && Spec.C10.sameSchema a.sch M.cur.sch then ["torn:after"] else [])
+    (if !M.dropped.isEmpty then ["restart-after-drop"] else [])
+  | .tornWrite _ _ a =>
+    [if Spec.C10.sameSchema a.sch M.cur.sch then "torn-write:before" else "torn-write:after"]
+  | .tornDrop m _ a =>
+    [if Spec.C10.hasMeas M.cur.sch m && !Spec.C10.hasMeas a.sch m then "torn-drop:after" else "torn-drop:before"]
   | .look _ => []
 
 def oracle (obs : List (List String × String)) : Verdict :=
